@@ -331,6 +331,8 @@ def lattice(thorough):
     add(integrator="whfast", o={"safe_mode": 0}, system="big1030")
     add(integrator="leapfrog", o={}, gravity="tree", collision="tree", boundary="periodic", system="rootboxes")
     add(integrator="leapfrog", o={}, gravity="basic", collision="linetree", boundary="open", system="rootboxes")
+    add(integrator="mercurius", o={"safe_mode": 0}, system="close", cb=["mercurius_L"])
+    add(integrator="mercurius", o={"safe_mode": 1}, system="planets", cb=["mercurius_L"])
     add(integrator="sei", o={"OMEGA": 1.0}, collision="direct", resolve="hardsphere", system="shearsheet")
     add(integrator="leapfrog", o={}, collision="direct", resolve="callable", system="collide")
     add(integrator="ias15", o={}, collision="direct", resolve="callable", system="collide")
@@ -604,6 +606,8 @@ def attach(sim, cfg):
             sim.pre_timestep_modifications = _cb_pre
         elif cb == "post":
             sim.post_timestep_modifications = _cb_post
+        elif cb == "mercurius_L":
+            sim.ri_mercurius.L = "infinity"          # one of the named switching functions (a function pointer)
     sim._adv = cfg.get("advance")
     sim._dtn = cfg.get("dtn", 0.0123)
 
@@ -806,7 +810,7 @@ DIMS_COMMON = ["roles:testparticle_type0", "roles:testparticle_type1", "roles:ma
                "variational:test_particle", "variational:megno", "options:safe_mode0", "options:keep_unsynchronized", "options:corrector",
                "options:kernel_or_coordinates", "options:adaptive_or_scales_nondefault", "options:G_softening", "time:dt_negative",
                "time:integrate", "time:integrate_eft0", "time:integrate_split", "time:integrate_reverse", "time:t_far_from_zero",
-               "callbacks:additional_forces", "callbacks:additional_forces_vel", "callbacks:heartbeat", "callbacks:pre", "callbacks:post",
+               "callbacks:additional_forces", "callbacks:additional_forces_vel", "callbacks:heartbeat", "callbacks:pre", "callbacks:post", "callbacks:mercurius_L",
                "callbacks:collision_resolve_named", "callbacks:collision_resolve_callable", "histories:rejected_first_steps",
                "histories:close_encounter_or_pericentre", "histories:unsynchronised_save", "geometry:moving_com", "geometry:hyperbolic_body",
                "geometry:shear_boundary_ghost_boxes", "geometry:nonsquare_rootboxes_face", "geometry:boundary_open", "geometry:boundary_periodic",
@@ -879,6 +883,20 @@ PAIR_RULES = [
 ]
 
 
+# constraints on three factors (evaluated on partial assignments; missing factors never trigger)
+TRIPLE_RULES = [
+    (lambda c_: c_.get("integ") == "trace" and c_.get("event") == "rejected" and c_.get("call") in ("integrate_split", "integrate_reverse", "outputs"),
+     "TRACE with a far too large first step overshoots the first target, the next integrate() call then runs backwards: dt<0 is not supported by TRACE (F10, segfault)"),
+]
+
+
+def triple_excluded(partial):
+    for pred, reason in TRIPLE_RULES:
+        if pred(partial):
+            return reason
+    return None
+
+
 def pair_excluded(f, a, g, b):
     for rf, rg, pred, reason in PAIR_RULES:
         if (rf, rg) == (f, g) and pred(a, b):
@@ -894,7 +912,7 @@ def case_valid(case):
         for g in names[i + 1:]:
             if pair_excluded(f, case[f], g, case[g]):
                 return False
-    return True
+    return triple_excluded(case) is None
 
 
 def completable(factors, partial):
@@ -906,7 +924,7 @@ def completable(factors, partial):
             return True
         f = names[i]
         for v in factors[f]:
-            if all(not pair_excluded(f, v, g, cur[g]) for g in cur):
+            if all(not pair_excluded(f, v, g, cur[g]) for g in cur) and not triple_excluded(dict(cur, **{f: v})):
                 cur[f] = v
                 if rec(i + 1, cur):
                     del cur[f]
@@ -965,7 +983,7 @@ def covering_array(factors, rng, ncand=60, maxcases=2000):
                 rng.shuffle(vals)
                 for v in vals:
                     cand[f] = v
-                    if all(not pair_excluded(f, v, g, cand[g]) for g in cand if g != f):
+                    if all(not pair_excluded(f, v, g, cand[g]) for g in cand if g != f) and not triple_excluded(cand):
                         break
                 else:
                     ok = False
